@@ -196,7 +196,7 @@ theorem C11_exactness_needs_hypothesis :
 
 /-- regression (before 0e75382): `WITH cte1 AS (SELECT x FROM int1.t) SELECT * FROM cte1` with
 `default_namespace='proj'` (not a project) — the reference to the CTE counted as a second integration and the query was
-not pushed down whole; with a project as default namespace it was; now it is in both cases (`C11_decision`) -/
+not pushed down whole; with a project as default namespace it was; now it is in both cases (`C11_partial_decision`) -/
 theorem C11_regression_2 :
     checkSingle false (mkCatalog ⟨some [.nm n!"int1", .nm n!"int2"], none, .none, some n!"proj"⟩) [n!"cte1"]
       [.table [n!"cte1"], .table [n!"int1", n!"t"]] = none ∧
